@@ -17,6 +17,12 @@ N10 `t = E` (E may contain calls) directly followed by a statement whose header 
     assigned value, expression statement) reads t exactly once, before any call of that header is made, t being read
     nowhere else: E is substituted there and the binding dropped (evaluation order is unchanged)
 N11 `a, b = X, Y` with as many call-free values as targets, none of which mentions a target  ->  `a = X`, `b = Y`
+N12 an f-string made only of literal text and plain `{expr}` fields  ->  `"...{}...".format(expr, ...)`
+N13 `[f(x) for x in xs]` / `(f(x) for x in xs)` (one plain name f applied to the loop variable, no condition)  ->  `map(f, xs)`
+    where the result is only iterated (argument of join / list / tuple / set / sorted / a for loop)
+N14 `x = []` directly followed by `for t in it: [if c:] x.append(E)` (nothing else in the loop)  ->  `x = [E for t in it if c]`
+    (the comprehension is the canonical form of "collect E for every element"; rules read both through one view)
+N15 `while (x := E) <op> Y: body`  ->  `while True: x = E; if <negated test on x>: break; body`   (no else clause)
 N7  (Program level, propagate_constants) a name that resolves to a module-level constant of the package bound exactly
     once to a str/bytes/number/bool/None literal is replaced by that literal, so that a literal and a named
     constant with the same value are the same thing to every rule.
@@ -152,14 +158,46 @@ class _N3456(ast.NodeTransformer):
             return loop
         return node
 
+    @staticmethod
+    def _as_map(c):
+        if isinstance(c, (ast.ListComp, ast.GeneratorExp)) and len(c.generators) == 1 and not c.generators[0].ifs and not c.generators[0].is_async \
+                and isinstance(c.generators[0].target, ast.Name) and isinstance(c.elt, ast.Call) and isinstance(c.elt.func, ast.Name) \
+                and len(c.elt.args) == 1 and not c.elt.keywords and isinstance(c.elt.args[0], ast.Name) and c.elt.args[0].id == c.generators[0].target.id:
+            new = ast.Call(func=ast.Name(id="map", ctx=ast.Load()), args=[c.elt.func, c.generators[0].iter], keywords=[])
+            ast.copy_location(new.func, c)
+            return ast.copy_location(new, c)
+        return None
+
     def visit_Call(self, node):
         self.generic_visit(node)
+        consumer = (isinstance(node.func, ast.Attribute) and node.func.attr == "join") or (isinstance(node.func, ast.Name) and node.func.id in ("list", "tuple", "set", "frozenset", "sorted"))
+        if consumer and len(node.args) == 1 and not node.keywords:
+            m = self._as_map(node.args[0])
+            if m is not None:
+                node.args[0] = m
         if isinstance(node.func, ast.Name) and node.func.id == "dict" and len(node.args) == 1 and not node.keywords \
                 and isinstance(node.args[0], (ast.GeneratorExp, ast.ListComp)) and isinstance(node.args[0].elt, ast.Tuple) and len(node.args[0].elt.elts) == 2:
             c = node.args[0]
             new = ast.DictComp(key=c.elt.elts[0], value=c.elt.elts[1], generators=c.generators)
             return ast.copy_location(new, node)
         return node
+
+    def visit_JoinedStr(self, node):
+        self.generic_visit(node)
+        fmt, args = "", []
+        for v in node.values:
+            if isinstance(v, ast.Constant) and isinstance(v.value, str):
+                fmt += v.value.replace("{", "{{").replace("}", "}}")
+            elif isinstance(v, ast.FormattedValue) and v.conversion == -1 and v.format_spec is None:
+                fmt += "{}"
+                args.append(v.value)
+            else:
+                return node
+        new = ast.Call(func=ast.Attribute(value=ast.Constant(value=fmt), attr="format", ctx=ast.Load()), args=args, keywords=[])
+        for x in ast.walk(new):
+            if not hasattr(x, "lineno"):
+                ast.copy_location(x, node)
+        return ast.copy_location(new, node)
 
     def visit_ExceptHandler(self, node):
         self.generic_visit(node)
@@ -358,6 +396,8 @@ def _n9_function(func):
             return "value"
         if isinstance(st, (ast.Assign, ast.AugAssign)):
             return "value"
+        if isinstance(st, ast.For):
+            return "iter"
         return None
 
     def fix_adjacent(stmts):
@@ -468,8 +508,61 @@ def propagate_constants(program):
         rewrite(m, None, m.tree)
 
 
+class _N15(ast.NodeTransformer):
+    NEG = {ast.Is: ast.IsNot, ast.IsNot: ast.Is, ast.Eq: ast.NotEq, ast.NotEq: ast.Eq, ast.In: ast.NotIn, ast.NotIn: ast.In}
+
+    def visit_While(self, node):
+        self.generic_visit(node)
+        t = node.test
+        if node.orelse:
+            return node
+        if isinstance(t, ast.Compare) and len(t.ops) == 1 and isinstance(t.left, ast.NamedExpr) and isinstance(t.left.target, ast.Name) and type(t.ops[0]) in self.NEG:
+            x = t.left.target.id
+            asg = ast.Assign(targets=[ast.Name(id=x, ctx=ast.Store())], value=t.left.value)
+            neg = ast.Compare(left=ast.Name(id=x, ctx=ast.Load()), ops=[self.NEG[type(t.ops[0])]()], comparators=t.comparators)
+            brk = ast.If(test=neg, body=[ast.Break()], orelse=[])
+            new = ast.While(test=ast.Constant(value=True), body=[asg, brk] + node.body, orelse=[])
+            for y in (asg, asg.targets[0], neg, neg.left, brk, brk.body[0], new, new.test):
+                ast.copy_location(y, node)
+            return new
+        return node
+
+
+def _n14(tree):
+    for node in ast.walk(tree):
+        for field in ("body", "orelse", "finalbody"):
+            stmts = getattr(node, field, None)
+            if not (isinstance(stmts, list) and stmts and isinstance(stmts[0], ast.stmt)):
+                continue
+            i = 0
+            while i + 1 < len(stmts):
+                a, b = stmts[i], stmts[i + 1]
+                if isinstance(a, ast.Assign) and len(a.targets) == 1 and isinstance(a.targets[0], ast.Name) and isinstance(a.value, ast.List) and not a.value.elts \
+                        and isinstance(b, ast.For) and not b.orelse and len(b.body) == 1:
+                    x = a.targets[0].id
+                    inner = b.body[0]
+                    conds = []
+                    while isinstance(inner, ast.If) and not inner.orelse and len(inner.body) == 1:
+                        conds.append(inner.test)
+                        inner = inner.body[0]
+                    if isinstance(inner, ast.Expr) and isinstance(inner.value, ast.Call) and isinstance(inner.value.func, ast.Attribute) and inner.value.func.attr == "append" \
+                            and isinstance(inner.value.func.value, ast.Name) and inner.value.func.value.id == x and len(inner.value.args) == 1 and not inner.value.keywords:
+                        elt = inner.value.args[0]
+                        mentions_x = any(isinstance(y, ast.Name) and y.id == x for e in [elt, b.iter] + conds for y in ast.walk(e))
+                        if not mentions_x:
+                            comp = ast.ListComp(elt=elt, generators=[ast.comprehension(target=b.target, iter=b.iter, ifs=conds, is_async=0)])
+                            new = ast.Assign(targets=[a.targets[0]], value=comp)
+                            ast.copy_location(comp, b)
+                            ast.copy_location(new, a)
+                            stmts[i:i + 2] = [new]
+                            continue
+                i += 1
+
+
 def normalize(tree):
     tree = _N3456().visit(tree)
+    tree = _N15().visit(tree)
+    _n14(tree)
     tree = _N11().visit(tree)
     tree = _N8().visit(tree)
     _n9(tree)
